@@ -266,6 +266,7 @@ static void client_ops(const char* prog, const char* prop, int* held)
                 case 'z': client_poll(s, 2, 0, prop); break;
                 case 'h': client_poll(s, 0, (double)vs_param("hold_ms", 25), prop); break;
                 case 'w': vs_sleep_ms((double)vs_param("wait_ms", 12)); break;
+                case 'c': if (s == 0) OKQ(acquire_configure(RT, &PROPS)); break; // live re-configuration with the same devices and settings: the acquisition goes on
                 case 'H': if (!g_end_is_abort) { client_poll(s, 0, (double)vs_param("hold_ms", 25), prop); break; } // holding across stop blocks the pipeline the client waits for: not legal use
                     // fallthrough
                 case 'L': if (!g_end_is_abort) { client_poll(s, 0, (double)vs_param("hold_ms", 25), prop); break; }
